@@ -337,6 +337,32 @@ loop:
 	return obs
 }
 
+// number of stored blocks at or above the start block and not below their bundle base, and
+// whether the bundles that exist end before the stop block is reached (the source then tails)
+func fsEligible(l *fsLayout) (n int, tails bool) {
+	for i, f := range l.Files {
+		for _, b := range f {
+			if b.Num >= l.Start && b.Num >= l.base(i) {
+				n++
+			}
+		}
+	}
+	return n, l.Stop == 0 || l.base(len(l.Files)) <= l.Stop
+}
+
+// runRetry guards the quiet timer against a starved test process: a run that was shut down by
+// the quiet timer although the source should not have gone quiet yet (no tailing expected, or not
+// everything delivered) is repeated, with a quiet period of one second, at most twice; a genuine
+// stall shows up every time.
+func runRetry(l *fsLayout, attempt func(quiet time.Duration) *fsObs) *fsObs {
+	n, tails := fsEligible(l)
+	obs := attempt(120 * time.Millisecond)
+	for try := 0; try < 2 && obs.Forced && obs.Returned && (!tails || len(obs.Calls) < n); try++ {
+		obs = attempt(time.Second)
+	}
+	return obs
+}
+
 // ---------------------------------------------------------------- Coq terms
 
 func coqBlk(id, num, par uint64) string { return fmt.Sprintf("(mkBlk %d %d %d)", id, num, par) }
@@ -364,10 +390,10 @@ func coqCalls(cs []fsCall) string {
 // ---------------------------------------------------------------- layout generator
 
 type fsGenOpts struct {
-	maxBundle  int
-	maxFiles   int
-	breakPct   int // chance of a parent-link break somewhere
-	noStopPct  int // chance of no stop block (the source tails; the harness shuts it down)
+	maxBundle   int
+	maxFiles    int
+	breakPct    int // chance of a parent-link break somewhere
+	noStopPct   int // chance of no stop block (the source tails; the harness shuts it down)
 	fixedBundle uint64
 }
 
@@ -572,40 +598,44 @@ func c10Exec(raw json.RawMessage) (*Case, error) {
 	if l.Bundle == 0 {
 		return nil, fmt.Errorf("bundle size 0")
 	}
-	st, firsts := fsBuildStore(l, in.Delays)
-	rec := &recorder{failAt: -1}
-	rec.callDelay = in.Delays.handler
-	pre := bstream.PreprocessFunc(func(blk *pbbstream.Block) (interface{}, error) {
-		id := fsIDNum(blk.Id)
-		if dl := in.Delays.pre(id, blk.Number, firsts[id]); dl > 0 {
-			time.Sleep(dl)
-		}
-		return fsTag(id, blk.Number), nil
-	})
-	opts := []bstream.FileSourceOption{bstream.FileSourceWithBundleSize(l.Bundle)}
-	if l.Stop != 0 {
-		opts = append(opts, bstream.FileSourceWithStopBlock(l.Stop))
-	}
-	if !in.NoPre {
-		opts = append(opts, bstream.FileSourceWithConcurrentPreprocess(pre, in.Threads))
-	}
-	fs := bstream.NewFileSource(st, l.Start, rec, zap.NewNop(), opts...)
 	var fired int32
-	if in.ShutAfter >= 0 {
-		var once sync.Once
-		rec.onCall = func(n int) {
-			if n >= in.ShutAfter {
-				once.Do(func() {
-					go func() {
-						time.Sleep(time.Duration(in.ShutDelayUs) * time.Microsecond)
-						atomic.StoreInt32(&fired, 1)
-						fs.Shutdown(nil)
-					}()
-				})
+	attempt := func(quiet time.Duration) *fsObs {
+		atomic.StoreInt32(&fired, 0)
+		st, firsts := fsBuildStore(l, in.Delays)
+		rec := &recorder{failAt: -1}
+		rec.callDelay = in.Delays.handler
+		pre := bstream.PreprocessFunc(func(blk *pbbstream.Block) (interface{}, error) {
+			id := fsIDNum(blk.Id)
+			if dl := in.Delays.pre(id, blk.Number, firsts[id]); dl > 0 {
+				time.Sleep(dl)
+			}
+			return fsTag(id, blk.Number), nil
+		})
+		opts := []bstream.FileSourceOption{bstream.FileSourceWithBundleSize(l.Bundle)}
+		if l.Stop != 0 {
+			opts = append(opts, bstream.FileSourceWithStopBlock(l.Stop))
+		}
+		if !in.NoPre {
+			opts = append(opts, bstream.FileSourceWithConcurrentPreprocess(pre, in.Threads))
+		}
+		fs := bstream.NewFileSource(st, l.Start, rec, zap.NewNop(), opts...)
+		if in.ShutAfter >= 0 {
+			var once sync.Once
+			rec.onCall = func(n int) {
+				if n >= in.ShutAfter {
+					once.Do(func() {
+						go func() {
+							time.Sleep(time.Duration(in.ShutDelayUs) * time.Microsecond)
+							atomic.StoreInt32(&fired, 1)
+							fs.Shutdown(nil)
+						}()
+					})
+				}
 			}
 		}
+		return runWatched(fs, rec, quiet, 2*time.Second)
 	}
-	obs := runWatched(fs, rec, 120*time.Millisecond, 2*time.Second)
+	obs := runRetry(l, attempt)
 
 	ext := atomic.LoadInt32(&fired) != 0
 	cs := &Case{Obs: obs}
